@@ -2,10 +2,11 @@ import sys
 sys.path.insert(0,'/verif')
 from vlib import core, props
 from vlib.props import HDR
+from vlib.p_C14 import _replace
 n=int(sys.argv[1]); mode=sys.argv[2] if len(sys.argv)>2 else "c14"
 pid = "C14" if mode=="c14" else "C15"
 ctx=core.Ctx(pid,"quick",int(sys.argv[3]) if len(sys.argv)>3 else 1)
-st=ctx.stage("wptry","lib/dispatchcloud/worker","worker",["C14/zz_verif_c14wp_test.go"],"TestVerifC14WP$",n,HDR.format(imports="model.C16_runq model.C14_pool model.C14_wp_run"),shard=50,env={"VERIF_STAGE":"wptry","VERIF_WPMODE":mode})
+st=ctx.stage("wptry","lib/dispatchcloud/worker","worker",["C14/zz_verif_c14wp_test.go"],"TestVerifC14WP$",n,HDR.format(imports="model.C16_runq model.C14_pool model.C14_wp_run"),shard=50,env={"VERIF_STAGE":"wptry","VERIF_WPMODE":mode},replace=_replace())
 print(st.errors[:1] if st.errors else "no errors", st.failing[:20], st.wall, st.evaluated)
 import json
 if st.failing:
